@@ -476,3 +476,9 @@ example : (distanceRounded rne53 [2, 2, 3] #[1, 1, 1, 1, 1, 1, 1, 1, 1, 1, 0, 1]
     = #[3, 2, 3, 2, 1, 2, 2, 1, 2, 1, 0, 1] := by
   rw [(C05_binary64_image_exact [2, 2, 3] _ (by decide) (by decide)).1]
   decide +kernel
+/-- non-vacuity of the general bound: a line of 5793 samples and a 5234×5234 image are covered -/
+example : 4 * ((5792 : ℕ) : ℚ) ^ 2 * ((sentinel [5793] : ℚ) + ((5792 : ℕ) : ℚ) ^ 2) < 2 ^ 53 ∧
+    4 * ((5233 : ℕ) : ℚ) ^ 2 * ((sentinel [5234, 5234] : ℚ) + ((5233 : ℕ) : ℚ) ^ 2) < 2 ^ 53 := by
+  have h1 : sentinel [5793] = 33558850 := by decide
+  have h2 : sentinel [5234, 5234] = 54789513 := by decide
+  rw [h1, h2]; norm_num
